@@ -5,57 +5,6 @@ import SuxModel.BitFieldVec.BulkBase
 namespace Sux.BFV.C10
 open Sux Sux.BFV
 
-/-- From a per-word description of the new store (first word, middle words, last word, frame)
-to the bit-stream statement "the range `[dp, dp+L)` now holds source bits `[sp, sp+L)`". -/
-theorem assemble {W : Nat} (hW : 0 < W) (S : Nat → Bool) (d d' : Array Nat)
-    (sp dp L df dstBit dl : Nat) (hL : 0 < L)
-    (hdp : dp = df * W + dstBit) (hdb : dstBit < W)
-    (hdl1 : dl * W ≤ dp + L - 1) (hdl2 : dp + L - 1 < dl * W + W)
-    (first : ∀ b, b < W → (rd d' df).testBit b =
-      if dstBit ≤ b ∧ df * W + b < dp + L then S (sp + b - dstBit) else (rd d df).testBit b)
-    (middle : ∀ q, df < q → q < dl → ∀ b, b < W → (rd d' q).testBit b = S (sp + q * W + b - dp))
-    (last : df < dl → ∀ b, b < W → (rd d' dl).testBit b =
-      if dl * W + b < dp + L then S (sp + dl * W + b - dp) else (rd d dl).testBit b)
-    (frame : ∀ q, (q < df ∨ dl < q) → rd d' q = rd d q) :
-    ∀ k, bitAt W d' k = if dp ≤ k ∧ k < dp + L then S (k - dp + sp) else bitAt W d k := by
-  apply bitAt_ext_word hW
-  intro q r hr
-  rw [bitAt_word d q r hr]
-  have hdfdl : df ≤ dl := by
-    apply Nat.le_of_not_lt
-    intro h
-    have := succ_mul_le W h
-    omega
-  by_cases h1 : q < df
-  · rw [frame q (Or.inl h1)]
-    have := succ_mul_le W h1
-    rw [if_neg (by omega)]
-  · by_cases h2 : q = df
-    · subst h2
-      rw [first r hr]
-      by_cases hc : dstBit ≤ r ∧ q * W + r < dp + L
-      · rw [if_pos hc, if_pos (by omega)]
-        congr 1; omega
-      · rw [if_neg hc, if_neg (by omega)]
-    · have h3 : df < q := by omega
-      have h3' := succ_mul_le W h3
-      by_cases h4 : q < dl
-      · rw [middle q h3 h4 r hr]
-        have := succ_mul_le W h4
-        rw [if_pos (by omega)]
-        congr 1; omega
-      · by_cases h5 : q = dl
-        · subst h5
-          rw [last h3 r hr]
-          by_cases hc : q * W + r < dp + L
-          · rw [if_pos hc, if_pos (by omega)]
-            congr 1; omega
-          · rw [if_neg hc, if_neg (by omega)]
-        · have h6 : dl < q := by omega
-          rw [frame q (Or.inr h6)]
-          have := succ_mul_le W h6
-          rw [if_neg (by omega)]
-
 /-! ## the three loops -/
 
 theorem copyWords_spec (W : Nat) (src dst : Array Nat) (sf df : Nat) (hsok : WordsOK W src)
